@@ -130,7 +130,49 @@ func BuildValue(t reflect.Type, raw json.RawMessage) (reflect.Value, error) {
 	if err := json.Unmarshal(raw, v.Addr().Interface()); err != nil {
 		return v, err
 	}
+	fillAdditional(v, raw)
 	return v, nil
+}
+
+// fillAdditional: a struct with an AdditionalProperties map that has no UnmarshalJSON of its own (a defined type over
+// a generated type loses the methods) gets the members that match no json tag put into that map, as a handler would
+// do by assigning the field.
+func fillAdditional(v reflect.Value, raw json.RawMessage) {
+	t := v.Type()
+	if t.Kind() != reflect.Struct {
+		return
+	}
+	if _, has := reflect.PointerTo(t).MethodByName("UnmarshalJSON"); has {
+		return
+	}
+	ap, ok := t.FieldByName("AdditionalProperties")
+	if !ok || ap.Type.Kind() != reflect.Map || ap.Type.Key().Kind() != reflect.String {
+		return
+	}
+	var m map[string]json.RawMessage
+	if json.Unmarshal(raw, &m) != nil {
+		return
+	}
+	known := map[string]bool{}
+	for i := 0; i < t.NumField(); i++ {
+		tag := strings.Split(t.Field(i).Tag.Get("json"), ",")[0]
+		if tag != "" && tag != "-" {
+			known[tag] = true
+		}
+	}
+	mv := reflect.MakeMap(ap.Type)
+	for k, r := range m {
+		if known[k] {
+			continue
+		}
+		ev := reflect.New(ap.Type.Elem())
+		if json.Unmarshal(r, ev.Interface()) == nil {
+			mv.SetMapIndex(reflect.ValueOf(k), ev.Elem())
+		}
+	}
+	if mv.Len() > 0 {
+		v.FieldByName("AdditionalProperties").Set(mv)
+	}
 }
 
 // MakeResponse builds the response object a strict stub returns.
